@@ -186,7 +186,7 @@ structure Problem where
   products : List String
   /-- the `substances` OrderedDict (may hold more substances than take part) -/
   substances : List (String × Comp)
-  deriving Repr
+  deriving Repr, DecidableEq
 
 def insertSorted {α : Type} [LT α] [DecidableRel (α := α) (· < ·)] [DecidableEq α] (x : α) : List α → List α
   | [] => [x]
